@@ -1176,7 +1176,7 @@ def pre_build():
 PROP = Property(
     id="C02",
     title="A saved session restores to an observationally equivalent session",
-    theorems=["C02.names_injective", "C02.disambiguate_total_fresh", "C02.string_prefix_safe", "C02.old_label_reads_as_literal", "C02.roundtrip_framework", "C02.roundtrip_framework_cycles", "C02.roundtrip_framework_callbacks", "C02.declared_ids_denote_declared_names", "C02.dispatch_matches_observed", "C02.table_offenders_nil", "C02.no_silent_fallthrough"],
+    theorems=["C02.names_injective", "C02.disambiguate_total_fresh", "C02.string_prefix_safe", "C02.old_label_reads_as_literal", "C02.roundtrip_framework", "C02.roundtrip_framework_cycles", "C02.roundtrip_framework_callbacks", "C02.classes_field_faithful", "C02.roundtrip_classes", "C02.declared_ids_denote_declared_names", "C02.dispatch_matches_observed", "C02.table_offenders_nil", "C02.no_silent_fallthrough"],
     families=[Fw(), Cls(), Sess(), SessFiles()],
     pre_build=pre_build,
     trusted_base=["JSON, base64, np.save/np.load, FITS/HDF5/CSV readers (astropy, h5py, pandas) are trusted codecs",
